@@ -180,6 +180,24 @@ func parseTrace(lines []string) *trace {
 	return tr
 }
 
+func hasArg(args []string, a string) bool {
+	for _, x := range args {
+		if x == a {
+			return true
+		}
+	}
+	return false
+}
+
+func argVal(args []string, prefix string) string {
+	for _, x := range args {
+		if strings.HasPrefix(x, prefix) {
+			return x
+		}
+	}
+	return prefix + "?"
+}
+
 // all returns every recorded execution of every item, in a deterministic order.
 func (tr *trace) all() []*itemRec {
 	keys := make([]string, 0, len(tr.items))
@@ -352,6 +370,9 @@ func monitorLines(lines []string) (vs []hxlib.Violation) {
 		case e.typ == "e" && e.act == "startBegin":
 			up[e.mod] = true
 			restarted[e.mod] = true
+		case e.typ == "e" && e.act == "startFail":
+			// the start routine failed: the module is back to offline without having been stopped
+			up[e.mod] = false
 		case e.typ == "e" && e.act == "stopBegin":
 			// modules it depends on begin stopping only afterwards
 			for _, r := range dependents(e.mod) {
@@ -375,9 +396,16 @@ func monitorLines(lines []string) (vs []hxlib.Violation) {
 			if e.args[0] != "1" {
 				add("C05:ctx-not-cancelled-at-stopfn", fmt.Sprintf("the stop routine of m%d was invoked while the module context was not cancelled", e.mod), e.idx)
 			}
-		case e.typ == "h" && e.act == "ctxAtStopfn":
-			if len(e.args) >= 3 && e.args[2] != "cancelled=1" {
-				add("C05:ctx-not-cancelled-at-stopfn", fmt.Sprintf("stop routine of m%s invoked while the context handed to %s was not cancelled", e.args[0], e.args[1]), e.idx)
+		case e.typ == "e" && e.act == "ctxObs":
+			// clause 1, read on the context each executing piece of work actually received: inside the stop routine
+			// (= after its invocation) every one of them is cancelled
+			if len(e.args) >= 2 && e.args[0] != "1" && hasArg(e.args, "at=stopfn") {
+				sig, which := "C05:ctx-not-cancelled-at-stopfn", "the context handed to"
+				if hasArg(e.args, "cur=0") {
+					sig += ":context-of-earlier-start"
+					which = "the context (installed by an earlier start of the module, " + argVal(e.args, "gen=") + ") handed to"
+				}
+				add(sig, fmt.Sprintf("stop routine of m%d invoked while %s %s, which is still executing, was not cancelled", e.mod, which, e.args[1]), e.idx)
 			}
 		case e.typ == "e" && e.act == "sOffline":
 			up[e.mod] = false
@@ -420,7 +448,14 @@ func monitorLines(lines []string) (vs []hxlib.Violation) {
 				if c.timeout && within {
 					add("C05:waited-out-stop-timeout", fmt.Sprintf("m%d: all work and the stop routine had returned %d ms after the cancellation, yet the stopper waited out the stop timeout (%d ms)", e.mod, (last-c.tCancel)/1000, s.StopTimeout), e.idx)
 				}
-				if !c.timeout && e.t-last > promptUs {
+				// "promptly, without waiting out the stop timeout": judged against the scenario's stop timeout (half of
+				// it, at least promptUs) so that a machine under heavy load (1.8 s seen at load average 87 inside
+				// portbase's panic handling) cannot turn scheduling delay into an alarm
+				bound := int64(promptUs)
+				if h := int64(s.StopTimeout) * 1000 / 2; h > bound {
+					bound = h
+				}
+				if !c.timeout && e.t-last > bound {
 					add("C05:offline-not-prompt", fmt.Sprintf("m%d was reported offline %d ms after its last piece of work returned", e.mod, (e.t-last)/1000), e.idx)
 				}
 			}
@@ -515,6 +550,12 @@ func countTrace(r *hxlib.Run, j *job, tr *trace) {
 		for _, k := range m.Late {
 			r.Count("late-spec:" + k)
 		}
+		if m.PrepFn != "" {
+			r.Count("prepfn:" + m.PrepFn)
+		}
+		if m.StartFn != "" && m.StartFn != "ok" {
+			r.Count(fmt.Sprintf("startfn:%s:failing-invocations=%d", m.StartFn, m.StartFails))
+		}
 	}
 	if j.res.err != "" {
 		r.Count("child:" + j.res.err)
@@ -537,13 +578,41 @@ func countTrace(r *hxlib.Run, j *job, tr *trace) {
 				if len(e.args) > 0 {
 					k += ":cancelled=" + e.args[0]
 				}
+			case "ctxObs":
+				k += ":cancelled=" + e.args[0] + ":" + argVal(e.args, "at=") + ":" + argVal(e.args, "cur=")
 			}
 			r.Count("event:" + k)
+			if e.act == "workEnter" && hasArg(e.args, "gen=?") {
+				r.Count("workEnter:context-of-unknown-origin")
+			}
 		case "h":
 			if e.act == "lateRan" || e.act == "lateNotRun" || e.act == "lateTry" {
 				r.Count("late:" + e.act + ":" + e.args[1])
 			}
 		}
+	}
+	// life cycles: start attempts per module, failed ones, work that outlives a failed attempt
+	starts, fails := map[int]int{}, map[int]int{}
+	for _, e := range tr.evs {
+		if e.typ != "e" {
+			continue
+		}
+		switch e.act {
+		case "startBegin":
+			starts[e.mod]++
+		case "startFail":
+			fails[e.mod]++
+			n := 0
+			for _, it := range tr.all() {
+				if it.mod == e.mod && it.enter < e.idx && (it.exit < 0 || it.exit > e.idx) {
+					n++
+				}
+			}
+			r.Count(fmt.Sprintf("failed-start:work-left-running:%d", min(n, 9)))
+		}
+	}
+	for m, n := range starts {
+		r.Count(fmt.Sprintf("module-life:starts=%d,failed=%d", min(n, 9), fails[m]))
 	}
 	// interleaving classes per cycle
 	for _, c := range tr.cycles {
